@@ -196,6 +196,48 @@ func hwHandler(op string, a kv) string {
 			return "ok input=<unregistered>"
 		}
 		return "ok input=" + s.(*sensors.HwmonSensor).Input
+	case "hw.bindsensors":
+		// several hwmon sensor entries in ONE initializeSensors call: sels=<platform>:<index>;<platform>:<index>...
+		// (each entry must be bound on its own merits: nothing may leak from one entry to the next)
+		saved := configuration.CurrentConfig.Sensors
+		defer func() { configuration.CurrentConfig.Sensors = saved }()
+		var cfgs []configuration.SensorConfig
+		var ids []string
+		for _, t := range strings.Split(a.str("sels", ""), ";") {
+			if t == "" {
+				continue
+			}
+			kvp := strings.SplitN(t, ":", 2)
+			hwSensorCounter++
+			id := fmt.Sprintf("hwsensor%d", hwSensorCounter)
+			ids = append(ids, id)
+			cfgs = append(cfgs, configuration.SensorConfig{ID: id,
+				HwMon: &configuration.HwMonSensorConfig{Platform: kvp[0], Index: hwAtoi(kvp[1])}})
+		}
+		configuration.CurrentConfig.Sensors = cfgs
+		savedReg := prometheus.DefaultRegisterer
+		prometheus.DefaultRegisterer = prometheus.NewRegistry()
+		defer func() { prometheus.DefaultRegisterer = savedReg }()
+		err := internal.VerifInitializeSensors(hwChips)
+		if err != nil {
+			// the error names the entry: report its position
+			for i, id := range ids {
+				if strings.Contains(err.Error(), id+".") || strings.HasSuffix(err.Error(), id) || strings.Contains(err.Error(), id+" ") {
+					return fmt.Sprintf("err at=%d", i)
+				}
+			}
+			return "err at=?"
+		}
+		var ins []string
+		for _, id := range ids {
+			sn, ok := sensors.GetSensor(id)
+			if !ok {
+				ins = append(ins, "<unregistered>")
+			} else {
+				ins = append(ins, sn.(*sensors.HwmonSensor).Input)
+			}
+		}
+		return "ok inputs=" + strings.Join(ins, ",")
 	}
 	return "bad-op"
 }
